@@ -247,7 +247,10 @@ def _run_test_shard(modname: str, test_index: int, shard: int, n: int, tier: str
             test.check(c, rr)
             return any(s_ == sub and match_known(known_preds, c, s_, d_) is None for s_, d_ in rr.failures)
 
-        small = _sh.shrink(b['case'], still, 150 if tier == 'quick' else 1500, 20.0 if tier == 'quick' else 180.0)
+        try:
+            small = _sh.shrink(b['case'], still, 150 if tier == 'quick' else 1500, 20.0 if tier == 'quick' else 180.0)
+        except Exception:   # shrinking is best effort: the unshrunk case is still a valid replay
+            small = b['case']
         if len(canon(small)) < len(canon(b['case'])):
             rr = R()
             test.check(small, rr)
